@@ -390,6 +390,12 @@ def c03(tr, acc, case):
                               f"run quiet and unfinished at vt={tr.vt_end}: step {s_} holds {len(st['ip'])} in-progress slot(s) but {open_bodies.get(s_, 0)} of its bodies are "
                               f"executing; {st['q']} event(s) queued behind", case)
     meta = (case.get("case") or {}).get("spec", {}).get("meta", {}) if isinstance(case, dict) else {}
+    if meta.get("resource_failure"):
+        acc.hit("failure_around_the_step_body")
+        if tr.outcome is None and tr.quiescent:
+            acc.violation({"mech": "work_stalled_after_failure_around_step_body"},
+                          f"the resource of step cruncher failed {sum(1 for r in tr.rec.log if r['k'] == 'res_raise')} time(s) with {meta.get('msg')!r} (retry policy allows 3 attempts): "
+                          f"the run ended as {tr.outcome} (quiescent={tr.quiescent}); resource calls {[ (r['k'], r['n']) for r in tr.rec.log if r['k'].startswith('res_')][:8]}", case)
     if meta.get("spin"):
         # steps that never await: the retry's delay elapses while the loop is handed one finished worker after another; once the loop
         # has had control after the due time, the retry must start, not wait until the queue of blocking work has drained
